@@ -3,6 +3,9 @@
 //!
 //! Case lines (see /verif/lean/YashModel/Fnmatch/Main.lean):
 //!   `m <e|n> <pattern hex> <text hex>`      `e` = `with_escape`, `n` = `without_escape`
+//!   `k <subject hex> <item> …`              a whole `case` command run by the shell: item = `<b|f|c>:<alt>,<alt>…`
+//!                                           (`;;` `;&` `;;&`), alt = `v<hex>` `$N` | `q<hex>` `"$N"` | `l<hex>` text in the script |
+//!                                           `s<hex>` `'text'` | `m<hex>_<hex>` `"$N"$M`; observation: which bodies ran
 //!   `s <subject hex> <q1> <p1> <q2> <p2>`   `case $1 in ("$2"$3) …;; ("$4"$5) …;; (*) …` and the four trims
 //!                                           of `$1` by `"$2"$3`, run by the shell on the virtual system
 //! Observation (`m`): error class or `E=ok`, literal fast path flag, `is_match` under the four anchor
@@ -484,6 +487,245 @@ fn run_shell(subj: &str, q1: &str, p1: &str, q2: &str, p2: &str) -> String {
 }
 
 // ------------------------------------------------------------------------------------------
+// shell leg 2: whole `case` commands (items x alternatives, broken patterns, quoting, continuations)
+
+#[derive(Clone, Debug)]
+enum Alt {
+    Var(String),          // $N
+    Quoted(String),       // "$N"
+    Lit(String),          // text written in the script (safe alphabet, backslash quotes)
+    Single(String),       // 'text'
+    Mixed(String, String), // "$N"$M
+}
+
+fn parse_alt(t: &str) -> Option<Alt> {
+    let (m, h) = t.split_at(1);
+    Some(match m {
+        "v" => Alt::Var(dec_str(h)?),
+        "q" => Alt::Quoted(dec_str(h)?),
+        "l" => Alt::Lit(dec_str(h)?),
+        "s" => Alt::Single(dec_str(h)?),
+        "m" => {
+            let (a, b) = h.split_once('_')?;
+            Alt::Mixed(dec_str(a)?, dec_str(b)?)
+        }
+        _ => return None,
+    })
+}
+
+fn show_alt(a: &Alt) -> String {
+    match a {
+        Alt::Var(s) => format!("v{}", enc_str(s)),
+        Alt::Quoted(s) => format!("q{}", enc_str(s)),
+        Alt::Lit(s) => format!("l{}", enc_str(s)),
+        Alt::Single(s) => format!("s{}", enc_str(s)),
+        Alt::Mixed(a, b) => format!("m{}_{}", enc_str(a), enc_str(b)),
+    }
+}
+
+/// pattern characters the way the shell sees an unquoted expansion / unquoted script text:
+/// a backslash quotes the next character, a trailing backslash stands for itself
+fn pcs_unquoted(text: &str) -> Vec<Pc> {
+    let cs: Vec<char> = text.chars().collect();
+    let mut out = vec![];
+    let mut i = 0;
+    while i < cs.len() {
+        if cs[i] == '\\' && i + 1 < cs.len() {
+            out.push((cs[i + 1], true));
+            i += 2;
+        } else {
+            out.push((cs[i], false));
+            i += 1;
+        }
+    }
+    out
+}
+
+fn alt_pcs(a: &Alt) -> Vec<Pc> {
+    match a {
+        Alt::Var(s) | Alt::Lit(s) => pcs_unquoted(s),
+        Alt::Quoted(s) | Alt::Single(s) => s.chars().map(|c| (c, true)).collect(),
+        Alt::Mixed(q, p) => q.chars().map(|c| (c, true)).chain(pcs_unquoted(p)).collect(),
+    }
+}
+
+/// Runs the `case` command; returns (observation, oracle).
+fn run_case_command(subj: &str, items: &[(char, Vec<Alt>)]) -> (String, String) {
+    let mut params = vec![subj.to_string()];
+    let mut script = String::from("case $1 in ");
+    for (k, (cont, alts)) in items.iter().enumerate() {
+        script.push('(');
+        for (j, a) in alts.iter().enumerate() {
+            if j > 0 {
+                script.push('|');
+            }
+            match a {
+                Alt::Var(s) => {
+                    params.push(s.clone());
+                    script.push_str(&format!("${{{}}}", params.len()));
+                }
+                Alt::Quoted(s) => {
+                    params.push(s.clone());
+                    script.push_str(&format!("\"${{{}}}\"", params.len()));
+                }
+                Alt::Lit(s) => script.push_str(s),
+                Alt::Single(s) => script.push_str(&format!("'{s}'")),
+                Alt::Mixed(q, p) => {
+                    params.push(q.clone());
+                    script.push_str(&format!("\"${{{}}}\"", params.len()));
+                    params.push(p.clone());
+                    script.push_str(&format!("${{{}}}", params.len()));
+                }
+            }
+        }
+        script.push_str(&format!(") echo {} ", k + 1));
+        script.push_str(match cont {
+            'f' => ";&",
+            'c' => ";;&",
+            _ => ";;",
+        });
+        script.push(' ');
+    }
+    script.push_str("esac\necho st=$?\n");
+    let mut config = yverif::shell::Config::new(&script);
+    config.positional_params = params;
+    let (out, _) = yverif::shell::run_with(config, |_, _| (), |_, _| ());
+    if out.stuck {
+        return ("TIMEOUT".into(), "-".into());
+    }
+    let text = out.stdout_str();
+    let mut ran = vec![];
+    let mut st = String::from("st=?");
+    for l in text.lines() {
+        if l.starts_with("st=") {
+            st = l.to_string();
+        } else {
+            ran.push(l.to_string());
+        }
+    }
+    let obs = format!("run={} {}", if ran.is_empty() { "-".to_string() } else { ran.join(".") }, st);
+
+    // oracle: the property's clause evaluated with the independent matcher — the first item one of whose
+    // alternatives is a defined pattern denoting the subject runs; `;&` falls through, `;;&` goes on testing
+    let s: Vec<char> = subj.chars().collect();
+    let item_hit = |alts: &Vec<Alt>| {
+        alts.iter().any(|a| match oracle_parse(&alt_pcs(a)) {
+            Some(toks) => gm(&toks, &s),
+            None => false,
+        })
+    };
+    let mut want = vec![];
+    let mut falling = false;
+    for (k, (cont, alts)) in items.iter().enumerate() {
+        if falling || item_hit(alts) {
+            want.push((k + 1).to_string());
+            match cont {
+                'f' => falling = true,
+                'c' => falling = false,
+                _ => break,
+            }
+        }
+    }
+    let want = format!("run={} st=0", if want.is_empty() { "-".to_string() } else { want.join(".") });
+    // `[:ascii:]` / `[:word:]` are accepted by the implementation (regex-crate class names) but are not POSIX
+    // class names: the independent matcher has no opinion on them
+    let extra_class = items.iter().flat_map(|(_, alts)| alts.iter()).any(|a| {
+        let t: String = alt_pcs(a).iter().map(|x| x.0).collect();
+        t.contains("[:ascii:]") || t.contains("[:word:]")
+    });
+    let oracle = if extra_class {
+        "-".to_string()
+    } else if want == obs {
+        "ok".to_string()
+    } else {
+        format!("FAIL:want {want}")
+    };
+    (obs, oracle)
+}
+
+const BROKEN: [&str; 7] = ["[b-a]", "[[:foo:]]", "[[..]]", "[[:digit:]-9]", "[[==]]x", "[z-a]*", "[a[:b:]]"];
+const BROKEN_LIT: [&str; 5] = ["[b-a]", "[[:b:]]", "[[..]]", "[[==]]", "[a[:a:]-b]"];
+
+/// script-safe pattern text over the small alphabet (no trailing backslash, never empty)
+fn rand_lit(r: &mut Rng) -> String {
+    loop {
+        let n = 1 + r.below(4);
+        let mut s = String::new();
+        for _ in 0..n {
+            s.push(*r.pick(&PAT_ALPHA));
+        }
+        // a backslash must have a character to quote; `\` + newline etc. cannot arise
+        let cs: Vec<char> = s.chars().collect();
+        let mut i = 0;
+        let mut ok = true;
+        while i < cs.len() {
+            if cs[i] == '\\' {
+                if i + 1 >= cs.len() {
+                    ok = false;
+                }
+                i += 2;
+            } else {
+                i += 1;
+            }
+        }
+        if ok {
+            return s;
+        }
+    }
+}
+
+fn rand_alt(r: &mut Rng, subj: &str) -> Alt {
+    // the pattern text: broken, the subject itself, a wildcard form, or a generated pattern
+    let text = |r: &mut Rng| -> String {
+        match r.below(10) {
+            0 | 1 => r.pick(&BROKEN).to_string(),
+            2 => subj.to_string(),
+            3 => r.pick(&["*", "?", "??", "?*", "[!x]", "a*", "*b"]).to_string(),
+            _ => rand_pattern(r, true),
+        }
+    };
+    match r.below(10) {
+        0..=3 => Alt::Var(text(r)),
+        4 => Alt::Quoted(if r.chance(1, 2) { subj.to_string() } else { text(r) }),
+        5 | 6 => {
+            if r.chance(1, 4) {
+                Alt::Lit(r.pick(&BROKEN_LIT).to_string())
+            } else {
+                Alt::Lit(rand_lit(r))
+            }
+        }
+        7 => {
+            let t: String = if r.chance(1, 2) { subj.to_string() } else { text(r) };
+            Alt::Single(t.chars().filter(|c| *c != '\'').collect())
+        }
+        _ => Alt::Mixed(rand_text(r, "*?[a]\\"), text(r)),
+    }
+}
+
+fn rand_case(r: &mut Rng) -> String {
+    let subj = match r.below(6) {
+        0 => String::new(),
+        1 => "a".to_string(),
+        2 => "ab".to_string(),
+        _ => rand_text(r, "ab*[-]"),
+    };
+    let mut items = vec![];
+    for _ in 0..1 + r.below(3) {
+        let cont = *r.pick(&['b', 'b', 'b', 'f', 'c']);
+        let mut alts = vec![];
+        for _ in 0..1 + r.below(3) {
+            alts.push(rand_alt(r, &subj));
+        }
+        items.push((cont, alts));
+    }
+    let toks: Vec<String> = items
+        .iter()
+        .map(|(c, alts)| format!("{}:{}", c, alts.iter().map(show_alt).collect::<Vec<_>>().join(",")))
+        .collect();
+    format!("k {} {}", enc_str(&subj), toks.join(" "))
+}
+
+// ------------------------------------------------------------------------------------------
 // generation
 
 const PAT_ALPHA: [char; 13] = ['a', 'b', '.', '-', '*', '?', '[', ']', '!', '^', '\\', ':', '='];
@@ -697,6 +939,27 @@ fn run_case(case: &str, memo: &mut Option<Compiled>) {
             let obs = guarded(|| run_shell(&d[0], &d[1], &d[2], &d[3], &d[4]));
             emit(case, &obs, "-");
         }
+        ["k", subj, rest @ ..] if !rest.is_empty() => {
+            let parsed: Option<Vec<(char, Vec<Alt>)>> = rest
+                .iter()
+                .map(|t| {
+                    let (c, alts) = t.split_once(':')?;
+                    let alts: Option<Vec<Alt>> = alts.split(',').map(parse_alt).collect();
+                    Some((c.chars().next()?, alts?))
+                })
+                .collect();
+            let (Some(subj), Some(items)) = (dec_str(subj), parsed) else {
+                emit(case, "bad-case", "-");
+                return;
+            };
+            let mut oracle_out = String::from("-");
+            let obs = guarded(|| {
+                let (obs, o) = run_case_command(&subj, &items);
+                oracle_out = o;
+                obs
+            });
+            emit(case, &obs, &oracle_out);
+        }
         _ => emit(case, "bad-case", "-"),
     }
 }
@@ -800,6 +1063,13 @@ fn main() {
             let t = rand_text(&mut r, &p);
             go(mcase(esc, &p, &t));
         }
+    }
+
+    // 5. shell leg 2: whole `case` commands
+    let ncase = if thorough { 20_000 } else { 1_500 };
+    let mut rk = Rng::new(opts.seed ^ 0xCA5E);
+    for _ in 0..ncase {
+        go(rand_case(&mut rk));
     }
 
     // 4. shell leg
